@@ -13,6 +13,39 @@ from harness import common  # noqa: F401  (puts $REPO on sys.path)
 MASK = (1 << 64) - 1
 
 
+class RDriver:
+    """model driver with one restart: the driver is stateless (every request carries its whole history), so a request
+    lost to a dying driver process (observed once under memory pressure from parallel builds) can simply be re-sent"""
+
+    def __init__(self):
+        self.d = common.Driver()
+        self.restarts = 0
+        self.lines_before = 0
+
+    @property
+    def n_lines(self):
+        return self.lines_before + self.d.n_lines
+
+    def batch(self, lines):
+        try:
+            return self.d.batch(lines)
+        except RuntimeError:
+            self.lines_before += self.d.n_lines
+            try:
+                self.d.close()
+            except Exception:  # noqa: BLE001
+                pass
+            self.d = common.Driver()
+            self.restarts += 1
+            return self.d.batch(lines)
+
+    def ask(self, line):
+        return self.batch([line])[0]
+
+    def close(self):
+        self.d.close()
+
+
 def fnv64(s):
     h = 14695981039346656037
     for b in s.encode("utf-8"):
